@@ -93,10 +93,19 @@ def cloneEvs (s : ISrc) (vs : List Nat) : List Ev :=
   | .cloned => vs.map Ev.clone
   | _ => []
 
-def takeCount (k : Option Nat) (a : Nat) : Nat :=
+def takeCount (k : Take) (a : Nat) : Nat := k.count a
+
+def takeCountO (k : Option Nat) (a : Nat) : Nat :=
   match k with
   | none => a
   | some k => min k a
+
+/-- elements discarded by `Iterator::nth` on a chunk iterator -/
+def skipEvs (s : ISrc) (vs : List Nat) : List Ev :=
+  if s.owning then vs.map Ev.drop
+  else match s.adapt with
+    | .cloned => vs.flatMap fun v => [Ev.clone v, Ev.dropc v]
+    | _ => []
 
 def add64 (a b : Nat) : Nat := (a + b) % W
 
@@ -240,21 +249,25 @@ def stepAux (s : ISrc) (t : Nat) (c : FCfg) (core' : Cfg) : FCfg × List Ev × B
           | .chunk b vals =>
             let a := vals.length
             let j := takeCount kk a
-            let taken := vals.take j
+            let sk := kk.skipped a
+            let skipped := vals.take sk
+            let taken := (vals.take j).drop sk
             let rest := vals.drop j
-            (setD { c with mv := c.mv ++ taken, dr := c.dr ++ (if s.owning then rest else []) } t { x with cur := none },
-              evs ++ cloneEvs s taken ++ dropEvs s rest ++ [.ret (.chunk b a (a - j) taken)], true)
+            (setD { c with mv := c.mv ++ taken, dr := c.dr ++ (if s.owning then skipped ++ rest else []) } t { x with cur := none },
+              evs ++ skipEvs s skipped ++ cloneEvs s taken ++ dropEvs s rest ++ [.ret (.chunk b a (a - j) taken)], true)
           | _ => (setD c t { x with cur := none }, evs ++ [.ret .fin], true)
         | .bufnext kk =>
           match o with
           | .chunk b vals =>
             let a := vals.length
             let j := takeCount kk a
-            let taken := vals.take j
+            let sk := kk.skipped a
+            let skipped := vals.take sk
+            let taken := (vals.take j).drop sk
             -- consumed slots become `None`; the others stay in the buffer
             let buf' := x.buf.map fun l => (List.replicate j none) ++ l.drop j
-            (setD { c with mv := c.mv ++ taken } t { x with cur := none, buf := buf' },
-              evs ++ cloneEvs s taken ++ [.ret (.chunk b a (a - j) taken)], true)
+            (setD { c with mv := c.mv ++ taken, dr := c.dr ++ (if s.owning then skipped else []) } t { x with cur := none, buf := buf' },
+              evs ++ skipEvs s skipped ++ cloneEvs s taken ++ [.ret (.chunk b a (a - j) taken)], true)
           | _ => (setD c t { x with cur := none }, evs ++ [.ret .fin], true)
         | .skip => (setD c t { x with cur := none }, evs ++ [.ret .unit], true)
         | _ =>
